@@ -51,7 +51,7 @@ def gen(rng, tier, idx):
     return dict(P=max(g[0] * g[1] for g in grids), ckw=ckw, grids=grids,
                 storage=rng.choice(['complex128', 'float64']), fn=rng.choice(['pert', 'pert', 'rho']),
                 data=rng.choice(['random', 'random', 'equilibrium', 'combo', 'scaled']),
-                dseed=rng.randrange(1 << 30), second_finder=rng.random() < 0.4, again=rng.random() < 0.4, regrid=rng.random() < 0.4, sched=sched)
+                dseed=rng.randrange(1 << 30), second_finder=rng.random() < 0.4, again=rng.random() < 0.4, regrid=rng.random() < 0.4, graded=rng.random() < 0.25, sched=sched)
 
 
 def make_field(case, eta, cdict):
@@ -127,6 +127,28 @@ def run(case, tape=None):
                 else:
                     df.getPerturbedRho(f, rho)
                 again = phys.block(rho)
+            graded = None
+            if case.get('graded'):
+                # a velocity spline on non-uniform breaks with the same degree, size and end points as the one used
+                # above (a mesh refined around v = 0): its own quadrature weights, whatever was computed before
+                from pygyro.splines import splines as spl
+                vs = f.getSpline(3)
+                pdeg = int(vs.degree)
+                nb_cells = int(npts[3]) - pdeg
+                u = np.linspace(-1.0, 1.0, nb_cells + 1)
+                vlo, vhi = float(cdict['vMin']), float(cdict['vMax'])
+                gb = vlo + (vhi - vlo) * 0.5 * (1.0 + np.sign(u) * np.abs(u) ** 1.7)
+                gb[0], gb[-1] = vlo, vhi
+                bsv = spl.BSplines(spl.make_knots(gb, pdeg, False), pdeg, False, False)
+                eta_g = [f.eta_grid[0], f.eta_grid[1], f.eta_grid[2], np.asarray(bsv.greville)]
+                h4g = getLayoutHandler(comm, dict(phys.STD_LAYOUTS), list(nprocs), eta_g)
+                f_g = Grid(eta_g, [f.getSpline(0), f.getSpline(1), f.getSpline(2), bsv], h4g, 'v_parallel', comm)
+                Fg = np.random.RandomState((case['dseed'] + 909) % (2 ** 31)).standard_normal(npts)
+                f_g.getAllData()[:] = cm.local(Fg, f_g.getLayout('v_parallel'))
+                rho_g = Grid(f.eta_grid[:3], f.getSpline(slice(0, 3)), rem, 'v_parallel_2d', comm, dtype=np.float64)
+                cm.poison(rho_g.getAllData())
+                DensityFinder(6, bsv, eta_g, constants).getRho(f_g, rho_g)
+                graded = (phys.block(rho_g), [float(x) for x in gb], [float(x) for x in eta_g[3]]) if True else None
             other = None
             if alt is not None:
                 # the same finder on a distribution function distributed over another process grid of the same
@@ -142,7 +164,7 @@ def run(case, tape=None):
                 cm.poison(rho_b.getAllData())
                 df.getPerturbedRho(f_b, rho_b)
                 other = phys.block(rho_b)
-            return dict(rho=out, again=again, other=other, eta=eta if rank == 0 else None,
+            return dict(rho=out, again=again, other=other, graded=graded, eta=eta if rank == 0 else None,
                         cdict=cdict if rank == 0 else None)
 
         def post(w, results):
@@ -171,6 +193,15 @@ def run(case, tape=None):
                 if not (err2 <= TOL):
                     raise OracleFail('density-differs', dict(grid=g, relerr=err2, why='second call on the same finder and grid'))
             pr = {'grid_%dx%d' % (g[0], g[1]): 1}
+            if results[0].get('graded') is not None:
+                gb, vg = results[0]['graded'][1], np.asarray(results[0]['graded'][2])
+                Fg = np.random.RandomState((case['dseed'] + 909) % (2 ** 31)).standard_normal(npts)
+                gotg = phys.assemble([r['graded'][0] for r in results], npts[:3], 'rho (graded velocity spline)')
+                wg = ref.ClampedInterp(vg, np.asarray(gb), int(cdict['splineDegrees'][3])).quadrature_weights()
+                errg = float(np.max(np.abs(gotg - Fg @ wg))) / (float(np.max(np.abs(Fg))) * (gb[-1] - gb[0]))
+                if not (errg <= TOL):
+                    raise OracleFail('density-differs', dict(grid=g, relerr=errg, why='velocity spline on non-uniform breaks'))
+                pr['graded_velocity_spline'] = 1
             if results[0].get('other') is not None:
                 F3 = make_field(dict(case, dseed=case['dseed'] + 626, data='scaled'), eta, cdict)
                 got3 = phys.assemble([r['other'] for r in results], npts[:3], 'rho (other process grid, same finder)')
